@@ -4,6 +4,28 @@ import Rbgp.Policy.Basic
 namespace Rbgp.Policy.Codec
 open Rbgp Rbgp.Term Rbgp.Policy
 
+/-! ## line parser
+
+`Rbgp.Term.parse` re-builds the pending atom at every character (its `flush` is a strict `let`),
+which is quadratic in the atom length; C14 lines carry long hex atoms, so the tokenizer is
+repeated here with the flush done only at delimiters.  Same token grammar, same `Term`. -/
+
+def tokFast : List Char → List Char → List Tok → List Tok
+  | [], cur, acc =>
+      (if cur.isEmpty then acc else Tok.at (String.ofList cur.reverse) :: acc).reverse
+  | c :: cs, cur, acc =>
+      if c == '(' then
+        tokFast cs [] (Tok.lp :: (if cur.isEmpty then acc else Tok.at (String.ofList cur.reverse) :: acc))
+      else if c == ')' then
+        tokFast cs [] (Tok.rp :: (if cur.isEmpty then acc else Tok.at (String.ofList cur.reverse) :: acc))
+      else if c == ' ' || c == '\t' || c == '\n' || c == '\r' then
+        tokFast cs [] (if cur.isEmpty then acc else Tok.at (String.ofList cur.reverse) :: acc)
+      else tokFast cs (c :: cur) acc
+
+def parseFast (s : String) : Option Term := parseAux (tokFast s.toList [] []) [] none
+
+def parseManyFast (s : String) : Option (List Term) := (s.splitOn "\t").mapM parseFast
+
 /-! ## atoms -/
 
 def addrOf? : Term → Option Addr
